@@ -93,6 +93,9 @@ func moduleStmt(g *yg.G) *yg.Stmt {
 		case 0:
 			return mk("leaf", fmt.Sprintf("t%d", i), mk("type", "int32", mk("range", odd())))
 		case 1:
+			if g.Pick(2, "oddpattern") == 0 {
+				return mk("leaf", fmt.Sprintf("t%d", i), mk("type", "string", mk("pattern", oddPatterns[g.Pick(len(oddPatterns), "whichpattern")])))
+			}
 			return mk("leaf", fmt.Sprintf("t%d", i), mk("type", "string", mk("length", odd()), mk("pattern", odd())))
 		case 2:
 			return mk("leaf", fmt.Sprintf("t%d", i), mk("type", "enumeration", mk("enum", "e", mk("value", odd()))))
@@ -164,6 +167,12 @@ func moduleStmt(g *yg.G) *yg.Stmt {
 	}
 	return mk("module", "m", body...)
 }
+
+// patterns that the regular expression library treats in ways of its own (quotations, flags, nesting and repeat limits,
+// POSIX classes, escapes it does not know): whatever the verdict, it is a verdict
+var oddPatterns = []string{"\\Qa.b", "\\Q", "a\\Qb\\E\\Q", strings.Repeat("(", 998) + "a" + strings.Repeat(")", 998), strings.Repeat("(", 999) + "a" + strings.Repeat(")", 999), strings.Repeat("(", 1000) + strings.Repeat(")", 1000),
+	"(?i)a", "(?", "(?P<n>a)", "(?P<n", "a{1000}", "a{1001}", "(a{1000}){1000}", "\\pN", "\\p{", "[[:alpha:]]", "[[:foo:]]", "\\C", "\\x{110000}", "\\x{", "\\8", "\\1", "a**", "a)(b", ")(", "[a", "\\", "a|*", "\\p{IsBasicLatin}", "[\\p{IsBasicLatin}]",
+	"\xff", "(\xff)", "\\z", "\\A\\z", "^$", "[^]", "[]", "x{2}{3}", "(?s).", "(?-", "\\E"}
 
 var oddArgs = []string{"-", "+", " ", "..", "1..", "..1", "|", "1|", "|1", "a..b", "-.5..1", "1..2 | -", "--1", "-0", "00", "0x", "1e1", "9999999999999999999999", "min", "max", "min..max", "max..min",
 	"true", "false", "True", "current", "a b", "a/b", "/a:b", "/", "a:", ":a", "1a", "é", "\u00a0", "a\u00a0b", "2020-01-01", "2020-1-1", "2020-13-45", "unbounded", "*", "[", "(", "\\", "1", "0", "18", "19", "user", "system", "not-supported", "add", "replace", "delete", "k", "k k", "-", "- 1", "1 -", "+1", "1..-", "-..5", ".", "1.", ".1", "1.2.3",
